@@ -352,6 +352,17 @@ class Effects:
             return True
         return c1 in self.subclasses(c2) or c2 in self.subclasses(c1)
 
+    # (function qualname, receiver text) -> class short name, declared by a contract (listed among its assumptions)
+    receiver_classes: dict = {}
+
+    def _excluded_by_hint(self, q, node, callee) -> bool:
+        if not self.receiver_classes or not (isinstance(node, ast.Call) and isinstance(node.func, ast.Attribute)):
+            return False
+        hint = self.receiver_classes.get((q, ast.unparse(node.func.value)))
+        hq = self.class_by_short.get(hint, [None])[0] if hint else None
+        ccls = callee.rsplit(".", 1)[0]
+        return hq is not None and ccls in self.class_methods and not self.related(ccls, hq)
+
     def reachable_ctx(self, roots):
         """Reachability over (function, self_is_fresh) pairs.  roots: [(qualname, fresh)]."""
         pred = {}
@@ -366,6 +377,8 @@ class Effects:
             for callee, node in fe.calls:
                 if callee not in self.funcs:
                     continue
+                if self._excluded_by_hint(q, node, callee):
+                    continue
                 kind = fe.call_kind.get((callee, id(node)), "other")
                 nf = True if kind == "fresh" else (fresh if kind == "self" else False)
                 key = (callee, nf)
@@ -374,7 +387,7 @@ class Effects:
                     stack.append(key)
         return pred
 
-    def block_writes(self, q: str, lo: int, hi: int, calls_only: bool = False):
+    def block_writes(self, q: str, lo: int, hi: int, calls_only: bool = False, recv_hints: dict | None = None):
         """Fields of pre-existing objects written by the statements of function q between source lines
         lo..hi, directly or through calls made there (transitively).  Writes to objects constructed inside
         the examined code (x = Cls(...); x.m(); writes through `self` inside Cls.__init__ / x.m) are not
@@ -389,6 +402,14 @@ class Effects:
         roots = []
         for c, node in fe.calls:
             if lo <= node.lineno <= hi:
+                # the contract declares the class of the receiver (`self.ast`: FortranAST): candidates of the
+                # name-based resolution that are methods of unrelated classes are not callees of this call
+                if recv_hints and isinstance(node, ast.Call) and isinstance(node.func, ast.Attribute):
+                    hint = recv_hints.get(ast.unparse(node.func.value))
+                    hq = self.class_by_short.get(hint, [None])[0] if hint else None
+                    ccls = c.rsplit(".", 1)[0]
+                    if hq is not None and ccls in self.class_methods and not self.related(ccls, hq):
+                        continue
                 kind = fe.call_kind.get((c, id(node)), "other")
                 roots.append((c, kind == "fresh"))
         pred = self.reachable_ctx(roots)
